@@ -322,6 +322,14 @@ func (v *FnV) safety(st *State, kind string, node ast.Node, cond string, desc st
 	if !v.fc.Safety {
 		return
 	}
+	for _, sk := range v.fc.Extra["skip"] {
+		if sk == kind {
+			// the contract declares this kind of run-time check out of scope (listed as an assumption)
+			v.c.trusted[v.name+": "+kind+" checks are assumed to pass (skip "+kind+")"] = true
+			st.assume(cond)
+			return
+		}
+	}
 	ord := v.fr().ord[node]
 	v.oblige(st, kind, node, ord, cond, desc)
 	// after a run-time check passes, execution continues with the condition true
@@ -547,6 +555,10 @@ func (v *FnV) checkPosts(ex Exit, sc *Scope, ord int) {
 	}
 	psc := &Scope{v: v, vars: vars, pkg: sc.pkg, pos: sc.pos, old: v.entry, oldVars: sc.vars}
 	for k, cl := range v.fc.Ensures {
+		if cl.Assumed {
+			v.c.trusted["assumed contract clause of "+v.name+": "+cl.Text] = true
+			continue
+		}
 		st := ex.st.fork()
 		val, err := v.spec(st, cl.Expr, psc)
 		if err != nil {
@@ -673,7 +685,21 @@ func (v *FnV) global(st *State, vr *types.Var) Value {
 		if _, ok := t.Underlying().(*types.Pointer); ok {
 			// a distinct non-nil object allocated at init time
 			cn := "gptr!" + mangle(vr.Pkg().Path()+"."+vr.Name())
-			v.c.glob("gptr:"+cn, fmt.Sprintf("(declare-const %s Int)", cn), fmt.Sprintf("(assert (and (< 0 %s) (<= %s alloc!0)))", cn, cn))
+			v.c.glob("gptr:"+cn, fmt.Sprintf("(declare-const %s Int)", cn), fmt.Sprintf("(assert (< 0 %s))", cn))
+			st.assume(sLe(cn, "alloc!0"))
+			return Value{T: t, S: cn}
+		}
+	}
+	if v.e.nonNilG[vr] && !v.e.assigned[vr] {
+		// initialised once with &T{...} and never reassigned: a fixed non-nil object
+		cn := "gobj!" + mangle(vr.Pkg().Path()+"."+vr.Name())
+		v.c.glob("gobj:"+cn, fmt.Sprintf("(declare-const %s Int)", cn), fmt.Sprintf("(assert (< 0 %s))", cn))
+		st.assume(sLe(cn, "alloc!0"))
+		if isInterface(t) {
+			if pt := v.e.globalInitType(vr); pt != nil {
+				return Value{T: t, S: v.c.toIface(Value{T: pt, S: cn})}
+			}
+		} else if _, ok := t.Underlying().(*types.Pointer); ok {
 			return Value{T: t, S: cn}
 		}
 	}
